@@ -9,12 +9,22 @@ import (
 
 type ConfigProp[T comparable] struct {
 	value           atomics.Value[commitable[overwritable[T]]]
-	onChange        event.Event[T]
+	onChange        *event.Event[T] // Behind a pointer, so copies of the prop share one (guarded) subscriber list.
 	requiresRestart bool
 }
 
 func NewConfigProp[T comparable](value T) ConfigProp[T] {
-	return ConfigProp[T]{value: atomics.NewValue(NewCommitable(NewOverwritable(value)))}
+	return ConfigProp[T]{
+		value:    atomics.NewValue(NewCommitable(NewOverwritable(value))),
+		onChange: event.New[T](),
+	}
+}
+
+func (p *ConfigProp[T]) event() *event.Event[T] {
+	if p.onChange == nil {
+		p.onChange = event.New[T]()
+	}
+	return p.onChange
 }
 
 func (p *ConfigProp[T]) SetRequiresRestart() {
@@ -32,7 +42,7 @@ func (p *ConfigProp[T]) Read() T {
 }
 
 func (p *ConfigProp[T]) OnChange(fn event.EventFn[T]) event.Unsubscribe {
-	return p.onChange.Subscribe(fn)
+	return p.event().Subscribe(fn)
 }
 
 func (p *ConfigProp[T]) Overwrite(value T) {
@@ -40,7 +50,7 @@ func (p *ConfigProp[T]) Overwrite(value T) {
 	commit.ref().Overwrite(value)
 	p.value.Store(commit)
 
-	p.onChange.Fire(value)
+	p.event().Fire(value)
 }
 
 // Stages the new value, keeping the old. The change is not committed until CommitStaged is called.
@@ -60,7 +70,7 @@ func (p *ConfigProp[T]) Stage(newValue T) {
 		setRestartNeeded()
 	}
 
-	p.onChange.Fire(newValue)
+	p.event().Fire(newValue)
 }
 
 func (p *ConfigProp[T]) CommitStaged() {
@@ -84,6 +94,7 @@ func (p *ConfigProp[T]) UnmarshalJSON(data []byte) error {
 	}
 
 	p.value.Store(NewCommitable(NewOverwritable(value)))
+	p.event()
 	return nil
 }
 
